@@ -24,7 +24,9 @@ def main():
     from . import engine, tlc
     try:
         if a.replay:
-            rc = mod.replay(a.replay, seed)
+            rc = mod.replay(a.replay, seed) if hasattr(mod, "replay") else engine.replay(a.pid, a.replay, seed,
+                                                                                      getattr(mod, "MODULE", "Trace_VscRand"),
+                                                                                      getattr(mod, "RUNNER", ("runner", "run_scenario")))
         else:
             rc = mod.run(a.tier, seed, limit=a.limit)
     except tlc.TlcError as e:
